@@ -6,6 +6,7 @@ import (
 	"time"
 
 	"github.com/go-logr/logr"
+	k8sjson "k8s.io/apimachinery/pkg/util/json"
 	metav1 "k8s.io/apimachinery/pkg/apis/meta/v1"
 
 	"metacontroller/pkg/apis/metacontroller/v1alpha1"
@@ -149,3 +150,10 @@ func parentKey(ns, name string) string {
 	return ns + "/" + name
 }
 
+
+func jsonUnmarshal(b []byte, v *kit.M) error {
+	m := map[string]interface{}{}
+	err := k8sjson.Unmarshal(b, &m)
+	*v = m
+	return err
+}
